@@ -125,6 +125,15 @@ def run_case(world: World, case: dict, seeds: tuple, autosave: bool = False, pol
     return out, cnt
 
 
+def numerical_refusal(out: M.Outcome) -> bool:
+    """The Krylov exponentiation's explicit 'did not converge' error (a dt too coarse for the
+    dynamics, typically one multi-microsecond step of the Lindblad solver) is the documented,
+    honest way of refusing a step it cannot take accurately (property C07); it is not a statement
+    about when observables are recorded or which calendar is followed."""
+    e = out.error
+    return isinstance(e, RecursionError) and "did not converge" in str(e)
+
+
 def observable_time_violations(case: dict, canon: dict, clause_prefix: str) -> list[dict]:
     V = []
     req = CAL.requested_times(case["cfg"]["observables"], case["cfg"]["default_times"])
